@@ -42,9 +42,11 @@ def rand_geometry(rng, thorough):
     return g
 
 
-def true_size_geometry(rng, which):
+def true_size_geometry(rng, which, n=None):
     """volumes whose type follows from the cluster count alone (no type string)"""
-    if which == 'fat12':
+    if n is not None:
+        pass
+    elif which == 'fat12':
         n = rng.choice([100, 4084])
     elif which == 'fat16':
         n = rng.choice([4085, 4200])
@@ -156,7 +158,9 @@ def run(ctx, build):
     for i in range(nvol):
         top = False
         if i % 12 == 11:
-            g = true_size_geometry(rng, rng.choice(['fat12', 'fat16']))
+            # both sides of the 4085 boundary come first (every run), then other counts
+            which, n_true = [('fat16', 4085), ('fat12', 4084), ('fat12', 100), ('fat16', 4200), (rng.choice(['fat12', 'fat16']), None)][min(i // 12, 4)]
+            g = true_size_geometry(rng, which, n_true)
         elif i % 12 == 5 or (ctx.thorough and i == 7):
             # (nearly) the largest volume of its type, allocated from the TOP: the highest cluster numbers overlap the values
             # that are reserved on smaller volumes (0xFF0..0xFF5 on FAT12, 0xFFF0..0xFFF5 on FAT16) and are still links
